@@ -72,7 +72,7 @@ def outcome_under(kind, base, options):
 def required_cells(tier):
     return (['agree:passed', 'agree:failed', 'agree:skipped', 'agree:disabled', 'style:auto', 'style:google',
              'style:freeform', 'exit:0', 'exit:1', 'leftover-pair:fail_reads_leftover', 'leftover-pair:pass_no_leftover',
-             'textfile:agree', 'textfile:__name__-in-a-later-example', 'textfile:after-a-failed-example:reads_previous'] +
+             'file-name:__main__.py', 'file-name:setup.py', 'textfile:agree', 'textfile:__name__-in-a-later-example', 'textfile:after-a-failed-example:reads_previous'] +
             ['options:' + (o or 'none') for o in set(OPTIONS)])
 
 
@@ -143,6 +143,16 @@ def check_module(ctx, idx, seed):
     os.mkdir(work)
     modname = 'pm_%d_%d_%d_zz' % (ctx.seed, ctx.shard, idx)
     path = os.path.join(work, modname + '.py')
+    if idx % 8 == 6:
+        # file names with a meaning elsewhere: a package's __main__.py, a setup.py (stock pytest leaves both alone,
+        # both front ends of xdoctest collect them)
+        if idx % 16 == 6:
+            os.mkdir(os.path.join(work, 'app_%d_zz' % idx))
+            open(os.path.join(work, 'app_%d_zz' % idx, '__init__.py'), 'w').close()
+            path = os.path.join(work, 'app_%d_zz' % idx, '__main__.py')
+        else:
+            path = os.path.join(work, 'setup.py')
+        ctx.cell('file-name:' + os.path.basename(path))
     with open(path, 'w') as f:
         f.write(om.src)
     cwd = os.path.join(work, 'cwd')
